@@ -144,6 +144,23 @@ func (t *DateTime) Date() Date {
 	)
 }
 
+// Date part of the datetime; an error when the year does not fit a Date.
+func (t *DateTime) CheckedDate() (Date, Value) {
+	year := t.Year()
+	if year > DateMaxYear || year < DateMinYear {
+		return Date{}, Ref(
+			Errorf(
+				DateInvalidYearErrorClass,
+				"year %d is out of range %d...%d",
+				year,
+				DateMinYear,
+				DateMaxYear,
+			),
+		)
+	}
+	return t.Date(), Undefined
+}
+
 func (t *DateTime) Time() Time {
 	return MakeTime(
 		t.Hour(),
